@@ -86,6 +86,12 @@ def gen_cases(ctx):
             yield {"cfg": cfg, "history": [["add", "6162", 3], ["add", "63", 1]], "offsets": "tail+sample", "overwrite": False}
     yield {"cfg": {"kind": "linear", "width": 600, "depth": 2}, "history": [["add", "61", 3]], "offsets": "all", "embed": True}
     yield {"cfg": {"kind": "hll", "p": 12, "seed": 0}, "history": [["add", "61", 3]], "offsets": "all", "embed": True}
+    # tables whose bytes spell a well-formed archive with only some of the members of a saved sketch (round 7, seed C20-M)
+    for cfg in ({"kind": "linear", "width": 600, "depth": 2}, {"kind": "log16", "width": 900, "depth": 2, "max_count": 2**32 - 1, "num_reserved": 1023},
+                {"kind": "log8", "width": 1500, "depth": 2, "max_count": 2**32 - 1, "num_reserved": 15}, {"kind": "hll", "p": 12, "seed": 0},
+                {"kind": "hh", "width": 64, "depth": 2, "max_key_len": 24}):
+        for part in ("args", "drop_last", "drop_second"):
+            yield {"cfg": cfg, "history": [["add", "61", 3]], "offsets": "around-embedded", "embed_partial": part}
 
 
 def run_case(case, ctx, mon):
@@ -96,18 +102,38 @@ def run_case(case, ctx, mon):
         mon.count("files_saved_from_shared_memory_sketches")
     for op in case["history"]:
         mon.api(ops.apply_op, sketch, op)
-    if case.get("embed"):
-        # adversarial counter contents: the table's bytes spell a complete saved sketch (a smaller one of the same class)
+    blob = None
+    if case.get("embed") or case.get("embed_partial"):
+        # adversarial counter contents: the table's bytes spell a complete saved sketch (a smaller one of the same class), or
+        # ("embed_partial") a well-formed archive that holds only SOME of the members a saved sketch has - the unchanged loaders
+        # raise on such an archive (a member they read is missing), so a prefix ending after it must raise as well
         inner = state.make(dict(cfg, width=3, depth=1) if kind != "hll" else dict(cfg, p=7))
         inner.add(b"inner", 2)
         ipath = state.tmp_path(".npz")
         inner.save(ipath)
-        blob = open(ipath, "rb").read()
+        if case.get("embed_partial"):
+            import io
+
+            with np.load(ipath) as z:
+                names = list(z.files)
+                keep = ["args"] if case["embed_partial"] == "args" else names[:-1] if case["embed_partial"] == "drop_last" else names[:1] + names[2:]
+                keep = [n for n in keep if n in names] or names[:1]
+                buf = io.BytesIO()
+                np.savez(buf, **{n: z[n] for n in keep})
+            blob = buf.getvalue()
+            mon.seen("members_of_partial_inner_archive", ",".join(keep) + " of " + ",".join(names))
+        else:
+            blob = open(ipath, "rb").read()
         os.unlink(ipath)
-        raw = getattr(sketch, {"hh": "lhh", "hll": "registers"}.get(kind, "cms")).reshape(-1).view(np.uint8)
-        if len(raw) >= len(blob) + 8:
-            raw[4: 4 + len(blob)] = np.frombuffer(blob, np.uint8)
-            mon.count("files_with_an_archive_embedded_in_the_table")
+        attr = {"hh": "lhh", "hll": "registers"}.get(kind, "cms")
+        arr = getattr(sketch, attr)
+        flat = np.ascontiguousarray(arr).reshape(-1).view(np.uint8).copy()
+        if len(flat) >= len(blob) + 8:
+            flat[4: 4 + len(blob)] = np.frombuffer(blob, np.uint8)
+            arr[...] = flat.view(arr.dtype).reshape(arr.shape)
+            mon.count("files_with_a_partial_archive_embedded_in_the_table" if case.get("embed_partial") else "files_with_an_archive_embedded_in_the_table")
+        else:
+            blob = None
     snap = state.snapshot(sketch)
     nonempty = any(np.any(snap[a]) for a in state.ARRAYS[kind])
     path = state.tmp_path(".npz")
@@ -153,6 +179,12 @@ def run_case(case, ctx, mon):
             rs = np.random.default_rng(size)
             offs = set(range(max(0, size - 6000), size)) | set(range(0, min(size, 600))) | set(int(x) for x in rs.integers(0, size, 1500))
             mon.count("large_files")
+        if offs == "around-embedded":
+            # every offset from just before the end of the inner archive to 400 bytes after it, the file's own tail, and a sample
+            pos = full.find(blob) + len(blob) if blob is not None and full.find(blob) >= 0 else size // 2
+            rs = np.random.default_rng(size)
+            offs = set(range(max(0, pos - 60), min(size, pos + 400))) | set(range(max(0, size - 120), size)) | set(int(x) for x in rs.integers(0, size, 200))
+            mon.count("files_with_partial_archive_found_in_the_saved_bytes", int(blob is not None and full.find(blob) >= 0))
         offsets = range(size - 1, -1, -1) if offs == "all" else sorted((int(o) for o in offs), reverse=True)
         for off in offsets:
             os.truncate(path, off)
@@ -224,6 +256,7 @@ def floors(mon, ctx):
     for k in state.ALL_KINDS:
         mon.floor(f"files of class {k}", mon.counters.get("files:" + k, 0), 1)
     mon.floor("prefix loads", mon.by_clause.get("prefix-must-raise", 0), 5000)
+    mon.floor("files whose table spells a partial archive", mon.counters["files_with_partial_archive_found_in_the_saved_bytes"], 10)
     mon.floor("files saved over an older, larger file", mon.counters["files_saved_over_an_older_larger_file"], 5)
     mon.floor("files with a complete sibling of the same stem", mon.counters["files_with_a_complete_sibling"], 3)
     mon.floor("files saved from shared-memory sketches", mon.counters["files_saved_from_shared_memory_sketches"], 3)
